@@ -137,7 +137,10 @@ def run(prop, tier, seed, replay=None):
                                            tags=('NN', '$,', 'VVFIN-X') if fmt in ('brackets', 'discobrackets') else ('NN', '$(', 'VVFIN-X'),
                                            tokedges=('--', 'HD'),
                                            disc=0.0 if fmt == 'brackets' else 0.5,
-                                           words=lambda r_, p_: (lambda x: x + str(p_) if x == 'w' else x)(r_.choice(pool)))
+                                           # (in a discobracket file the words stand after the tab: a parenthesis is
+                                           #  an ordinary token there)
+                                           words=lambda r_, p_: (lambda x: x + str(p_) if x == 'w' else x)(
+                                               r_.choice(pool + (['(', ')', '('] if fmt == 'discobrackets' else []))))
                     for x in T['nodes']:
                         a = x['a']
                         for fld in ('lab', 'edge', 'lemma', 'morph', 'word'):
